@@ -104,7 +104,8 @@ def mk_env(x, c):
             if (3 * no + len(env["certa"]) + 8) % 512 == 0:
                 env["certa"] = b"\x01" + env["certa"]
             if (no + len(env["certb"]) + 8) % 512 == 0:
-                env["certb"] = b"\x01" + env["certb"]
+                # (the second format starts with the public key: the extra octet goes into the name, behind the key)
+                env["certb"] = env["certb"][:2 * no] + b"\x01" + env["certb"][2 * no:] if c.get("fmt2") else b"\x01" + env["certb"]
     P = x.out(x.call("x_bake_params_size", ret="z"))
     r = x.call("bignParamsStd", P, x.buf(STD[l].encode() + b"\0"))
     if r:
